@@ -117,6 +117,7 @@ def _run(cdir, seed, tier, T, root, log):
         for k, cfg in enumerate(gen.configs_for(rnd, c, T["cfgs"])):
             cfg["id"] = "%s#%d" % (c["dir"], k)
             cfg["adv"] = c["adv"]
+            cfg["ordsens"] = bool(c.get("ordsens"))
             if k == 0 and c.get("named") and not c["adv"] and nout < T["outside"]:
                 cfg["outside"] = True   # also generated from a working directory outside the module (C16)
                 nout += 1
@@ -132,7 +133,9 @@ def _run(cdir, seed, tier, T, root, log):
     reqs = []
     for i, j in enumerate(jobs):
         reqs.append({"job": j, "fmts": ["noop", "", "goimports"], "oracle": True,
-                     "reps": 8 if j.get("corpus") else (3 if i % T["reps_every"] == 0 else 0),
+                     # inputs on which the order of registration can matter (files disagreeing about
+                     # import names) are regenerated many times: Go's map order is the only lever
+                     "reps": 8 if j.get("corpus") else 40 if j.get("ordsens") else (3 if i % T["reps_every"] == 0 else 0),
                      "outside": outside if j.get("outside") else ""})
     try:
         rres = pool.run_jobs(harness, root, reqs, env=env, timeout=120)
